@@ -553,15 +553,16 @@ def readLP (lexN : List Char → Option α) (text : List Char) : Option (LpProbl
 
 /-! #### what a problem says about one variable -/
 
+/-- one `Bounds` entry applied to the range known so far for variable `v`. -/
+def rangeStep (v : String) (acc : α × α) (b : LpBound α) : α × α :=
+  if b.var == v then
+    ((match b.lo with | some l => l | none => acc.1), (match b.hi with | some u => u | none => acc.2))
+  else acc
+
 /-- the default range of a variable that has no `Bounds` entry is `[0, +inf)`; later entries
 override earlier ones side by side; a `Binary` variable has range `[0, 1]`. -/
 def rangeOf (p : LpProblem α) (v : String) : α × α :=
-  let r : α × α := p.bounds.foldl
-    (fun acc b => if b.var == v then
-        ((match b.lo with | some l => l | none => acc.1), (match b.hi with | some u => u | none => acc.2))
-      else acc)
-    (zero, posInf)
-  if p.binaries.contains v then (zero, one) else r
+  if p.binaries.contains v then (zero, one) else p.bounds.foldl (rangeStep v) (zero, posInf)
 
 inductive Kind | continuous | binary | general
   deriving DecidableEq, Repr, Inhabited
